@@ -277,7 +277,19 @@ def wire_to_coq(w):
     if k == "es_bulk":
         return "WElasticBulk %s %s" % (hb(f[0]), coq_hexpairs(w.get("tags")))
     if k == "otlp":
-        return "WOtlpLogs (otlp_map %s %s %s %s)" % (coq_hexpairs(w.get("res")), coq_hexpairs(w.get("scope")), coq_hexpairs(w.get("rec")), hb(w.get("sev", "")))
+        def attrs(l):
+            out = []
+            for a, b in l or []:
+                v = unhex(b)
+                if v.startswith(b"\x00b:"):
+                    val = "OBool %s" % ("true" if v[3:] == b"true" else "false")
+                elif v.startswith(b"\x00i:"):
+                    val = "OInt (%d)" % int(v[3:])
+                else:
+                    val = "OStr %s" % coq_bytes(v)
+                out.append("(%s, %s)" % (coq_bytes(unhex(a)), val))
+            return coq_list(out)
+        return "WOtlpLogs (otlp_map %s %s %s %s)" % (attrs(w.get("res")), attrs(w.get("scope")), attrs(w.get("rec")), hb(w.get("sev", "")))
     if k == "loki_ttl":
         return "WSanitized LokiJsonStream %s" % coq_hexpairs(w.get("tags"))
     if k == "influx_metric":
